@@ -495,6 +495,72 @@ func runC14(cfg *vh.Config) error {
 		caseNo++
 	}
 
+	// ---- stream 1r: the fixed bundles compiled again and again on fresh PackageSets with the listing of the baseline.
+	// A choice left to Go's map iteration order (which import owns a shared short name, which cached value wins) shows
+	// only in a fraction of the compilations: small maps iterate in insertion order more often than not, so the 8
+	// configurations above can all agree by chance. Everything must be byte-identical to the baseline, every time.
+	{
+		nFixed := 1
+		if nB > 3 {
+			nFixed = 3
+		}
+		reps := cfg.Scale(40, 200)
+		type repOut struct {
+			Sig, Got string
+			N        int
+		}
+		routs := parallel(nFixed, "repeat", caseNo,
+			func(i int) any {
+				return map[string]any{"files": bundles[i].Content, "packages": bundles[i].Packages, "call": "repeated compilation on fresh sets"}
+			},
+			func(i int) repOut {
+				var o repOut
+				base := all[i].Runs[0]
+				note := func(sig, got string) {
+					if o.N == 0 {
+						o.Sig, o.Got = sig, got
+					}
+					o.N++
+				}
+				for k := 0; k < reps; k++ {
+					run := runConfig(bundles[i], cfg.Seed, 0)
+					for _, pkg := range bundles[i].Packages {
+						bf, bok := base.Pkgs[pkg]
+						rf, rok := run.Pkgs[pkg]
+						switch {
+						case bok != rok:
+							note("C14 compile outcome differs between repeated compilations of the same bundle", fmt.Sprintf("compilation %d of %d, package %s: baseline ok=%v (%s), now ok=%v (%s)", k+1, reps, pkg, bok, base.Errs[pkg], rok, run.Errs[pkg]))
+						case !bok:
+						case len(bf) != len(rf):
+							note("C14 number of output files differs between repeated compilations of the same bundle", fmt.Sprintf("compilation %d of %d, package %s: %d vs %d", k+1, reps, pkg, len(bf), len(rf)))
+						default:
+							for j := range bf {
+								switch {
+								case bf[j].Path != rf[j].Path:
+									note("C14 order of output files differs between repeated compilations of the same bundle", fmt.Sprintf("compilation %d of %d, package %s file %d: %s vs %s", k+1, reps, pkg, j, bf[j].Path, rf[j].Path))
+								case bf[j].Hash != rf[j].Hash:
+									_, d := firstDiffClass(bf[j].Text, rf[j].Text)
+									note("C14 descriptor bytes differ between repeated compilations of the same bundle", fmt.Sprintf("compilation %d of %d, %s: deterministic-marshal hash %s vs %s; printed text: %s", k+1, reps, bf[j].Path, bf[j].Hash, rf[j].Hash, d))
+								case bf[j].Text != rf[j].Text:
+									cls, d := firstDiffClass(bf[j].Text, rf[j].Text)
+									note("C14 printed text differs between repeated compilations of the same bundle: "+cls, fmt.Sprintf("compilation %d of %d, %s: %s", k+1, reps, bf[j].Path, d))
+								}
+							}
+						}
+					}
+				}
+				return o
+			})
+		for i, o := range routs {
+			res.Count("repeat_bundle")
+			if o.N > 0 {
+				in := map[string]any{"files": bundles[i].Content, "packages": bundles[i].Packages, "compared": fmt.Sprintf("baseline vs %d further compilations on fresh PackageSets (same listing)", reps)}
+				res.Fail(vh.Failure{Case: caseNo, Stream: "repeat", Sig: o.Sig, Clause: "byte-identical descriptors and printed text, independent of the run (Go map iteration order)", Input: in, Got: fmt.Sprintf("%s [%d differences in all]", o.Got, o.N)})
+			}
+		}
+		caseNo++
+	}
+
 	// ---- stream: printing one descriptor many times. protobuf ranges over extension fields and map
 	// entries in a random order per call, so repeated printing explores those orders directly.
 	// (a) a descriptor without source info whose message/service/method carry extensions that sit
